@@ -15,6 +15,11 @@ func VerifyMerkelProof(txid, root, proof []byte, index uint32) bool {
 	var buf []byte
 
 	nodes := len(proof) / sha256.Size
+	// the position must lie inside a tree of this depth
+	if nodes < 32 && index>>nodes != 0 {
+		return false
+	}
+
 	if nodes > 0 {
 		buf = make([]byte, sha256.Size*2)
 	}
